@@ -351,6 +351,79 @@ def template_obligations_cpp(rep):
         subprocess.run(["rm", "-rf", work])
 
 
+# --------------------------------------------------------------------------------------------- O6 composition
+def py_like(text):
+    """C++ operator subset -> Python syntax with the same precedence/associativity (for parsing only)"""
+    import re
+
+    t = text.replace("std::", "std.").replace("&&", " and ").replace("||", " or ")
+    t = re.sub(r"!(?!=)", " not ", t)
+    t = re.sub(r"std\.numeric_limits<[^>]*>\.", "std.numeric_limits.", t)
+    t = re.sub(r"std\.complex<[^>]*>", "std.complex", t)
+    return t
+
+
+def composition_obligations(rep, targets=("python", "numpy", "cpp", "xla_client")):
+    """substituting a child's text for a placeholder keeps the child's tree intact: for every (parent template, placeholder,
+    child template) the instantiated text parses to the same tree as with the child explicitly parenthesised"""
+    import functional_algorithms.targets as T
+
+    for tname in targets:
+        target = getattr(T, tname)
+        conv = py_like if tname in ("cpp", "xla_client") else (lambda t: t)
+        fnid = ("targets.%s.kind_to_target" % tname,)
+        tm = {k: v for k, v in target.kind_to_target.items() if isinstance(v, str)}
+        children = {}
+        for k, v in tm.items():
+            try:
+                txt = v.format("p", "q", "r", typeof_0="float")
+                ast.parse(conv(txt), mode="eval")
+                children[k] = txt
+            except Exception:
+                continue  # unparsable templates are O1's finding; ternaries are handled below
+        from vf.symexpr import SIG
+
+        def optypes(kind):
+            if kind == "select":
+                return ("B", "F", "F")
+            sg = SIG.get(kind)
+            return sg[0] if sg else None
+
+        def restype(kind):
+            if kind == "select":
+                return "F"
+            sg = SIG.get(kind)
+            return sg[1] if sg else None
+
+        bad = []
+        n = 0
+        skipped = []
+        for pk, pv in sorted(tm.items()):
+            nholes = 3 if "{2}" in pv else (2 if "{1}" in pv else 1)
+            pt = optypes(pk)
+            if pt is None:
+                continue  # only well-typed compositions of the float/boolean kinds
+            for j in range(min(nholes, len(pt))):
+                for ck, ctxt in children.items():
+                    if restype(ck) != pt[j]:
+                        continue
+                    args = ["a", "b", "c"]
+                    a1 = list(args)
+                    a1[j] = ctxt
+                    a2 = list(args)
+                    a2[j] = "(" + ctxt + ")"
+                    try:
+                        e1 = ast.dump(ast.parse(conv(pv.format(*a1, typeof_0="float")), mode="eval"))
+                        e2 = ast.dump(ast.parse(conv(pv.format(*a2, typeof_0="float")), mode="eval"))
+                    except SyntaxError:
+                        skipped.append(pk)
+                        break
+                    n += 1
+                    if e1 != e2:
+                        bad.append((pk, j, ck, pv.format(*a1, typeof_0="float")))
+        rep.add(core.decided("C05/O6/composition/%s" % tname, PROP, not bad, functions=fnid, text="%d (parent template, placeholder, child template) combinations: the child's tree is intact inside the parent (same parse as with explicit parentheses)" % n, detail=dict(bad=[str(b) for b in bad[:5]], not_parsable_as_python=sorted(set(skipped))), meta=dict(target=tname, kind="composition", bad=[str(b) for b in bad[:3]])))
+
+
 # --------------------------------------------------------------------------------------------- O2 printer step
 def printer_step_obligations(rep):
     import warnings
@@ -585,7 +658,7 @@ def build(tier):
             template_obligations_py(rep, t)
         except Exception:
             rep.add(core.decided("C05/O1/%s/engine" % t, PROP, core.ERROR, text=traceback.format_exc()[-1500:]))
-    for f in (template_obligations_cpp, printer_step_obligations, need_ref_obligations, reference_obligations):
+    for f in (template_obligations_cpp, composition_obligations, printer_step_obligations, need_ref_obligations, reference_obligations):
         try:
             f(rep)
         except Exception:
